@@ -1,5 +1,6 @@
 import Apko.Model.IndexSig
 import Apko.Model.IndexSigGlue
+import Apko.Generated.TransIndexSig
 /-!
 line-protocol handlers for corr:indexsig (C04).
 
@@ -340,6 +341,12 @@ def handle (args : List String) : Option String :=
       hashSize := fun | .sha1 => 20 | .sha256 => 32 }
     let r := if rsaVerifyDigest L ['f'] a (List.replicate digLen.toNat! 'd') ['s'] then "ok" else "err"
     some (r ++ "\t" ++ r ++ "\t-")
+  | ["ti.check", ign, nosig, url, arch] =>
+    -- the check on the Go → Lean translator (extract/trans.go): impl = the regenerated translation of
+    -- shouldCheckSignatureForIndex, spec = the model `checkOn` (equal by Proofs/TransIndexSig.lean)
+    let o := parseOpts ign nosig
+    some (toString (Generated.Trans.shouldCheckSignatureForIndex (unx url) (unx arch) o) ++ "\t" ++
+      toString (checkOn o (unx url) (unx arch)) ++ "\tunlisted")
   | ["is.check", ign, nosig, url, arch] =>
     let o := parseOpts ign nosig
     let impl := toString (checkOn o (unx url) (unx arch))
